@@ -89,7 +89,8 @@ CLAIMS = {
                   "and fixpoint-exit rules, template taint",
         text="Decides that an expanded value cannot flow back into the pass's scanner, quoted tokens are skipped, the rewriter "
              "runs only on text its gate accepted and the loop leaves when nothing changed, unset removes from both stores, values "
-             "never reach a regex replacement template unescaped, lookup order, and the $?/$$ sources.",
+             "never reach a regex replacement template unescaped, lookup order, the $?/$$ sources, and that the tokenizer delimits a "
+             "trailing $NAME before gluing text across a quote boundary (explored over its character loop).",
         note="trusted: MIR; regex exactness on adjacent text not decided",
         ref="4/C10"),
     "C11": dict(
@@ -98,7 +99,10 @@ CLAIMS = {
         text="Decides that captured output cannot reach a replacement template unescaped or be rescanned for $(, the "
              "substitution loop cannot stutter and its splice pattern is as wide as its gate, capture=true at the three sites, "
              "trailing-newline-only trimming, read to EOF, one expansion per line, no interpreting pass after substitution, "
-             "positions stay valid until used, and bracketed counters are restored on every path.",
+             "positions stay valid until used, bracketed counters are restored on every path, the extracting pattern (evaluated as "
+             "data) takes one substitution at a time, the captured stderr is passed on, a function's output is concatenated as "
+             "written, assignment patterns accept multi-line values, and which commands run inside the shell process when "
+             "capturing (open finding).",
         note="trusted: MIR, regex replacement-template semantics",
         ref="4/C11"),
     "C12": dict(
@@ -150,7 +154,7 @@ CLAIMS = {
                   "for name shapes, edit-list and overwrite rules",
         text="Decides that alias lookup happens only at head-of-stage positions, the flag is cleared on every path that consumes "
              "a word, replaced tokens are not looked up again, unalias removes by exact key, redefinition overwrites, the value "
-             "replaces the word it was looked up for and enters the token list only through the tokenizer, and which accepted name shapes the tokenizer treats as assignment heads.",
+             "replaces the word it was looked up for and enters the token list only through the tokenizer, the listing chooses its quote character by the value, and which accepted name shapes the tokenizer treats as assignment heads.",
         note="trusted: MIR",
         ref="4/C17"),
     "C18": dict(
